@@ -6,7 +6,7 @@ from . import api
 from .core import simp, Unsupported, PathEnd, PyRaise
 from .zsorts import VStruct, VOpt, VBox, VObj, VAbs
 from .interp import Frame, Closure, BoundMethod, Builtin, is_sym, contains_sym
-from .exprs import PyList, PyDict
+from .exprs import PyList, PyDict, LazyGen
 from .stmts import IterView, ExcVal
 
 STR = z3.StringSort()
@@ -38,8 +38,8 @@ class MethodMixin:
         reg(zip, self.b_zip)
         reg(enumerate, self.b_enumerate)
         reg(range, self.b_range)
-        reg(any, lambda a, k, n, f: self.lor(*[self.truth(x) for x in self.concrete_iter(a[0])]))
-        reg(all, lambda a, k, n, f: self.land(*[self.truth(x) for x in self.concrete_iter(a[0])]))
+        reg(any, lambda a, k, n, f: self.quantify_gen(a[0], True) if isinstance(a[0], LazyGen) else self.lor(*[self.truth(x) for x in self.concrete_iter(a[0])]))
+        reg(all, lambda a, k, n, f: self.quantify_gen(a[0], False) if isinstance(a[0], LazyGen) else self.land(*[self.truth(x) for x in self.concrete_iter(a[0])]))
         reg(hash, self.b_hash)
         reg(iter, lambda a, k, n, f: a[0])
         reg(typing.cast, lambda a, k, n, f: a[1])
@@ -416,6 +416,16 @@ class MethodMixin:
 
     def m_box(self, recv, name, args, kwargs, node):
         t = recv.term
+        if recv.kind == 'dict':
+            dom = t.sort().domain()
+            if name == 'get':
+                k = self.zs.lift(args[0], dom)
+                has = z3.Select(t, k)
+                val = z3.Select(recv.vsort, k)
+                if len(args) > 1 and args[1] is not None:
+                    return self.ite(has, val, args[1])
+                return VOpt(z3.Not(has), val)
+            raise Unsupported(f'dict.{name} on a symbolic dict')
         if recv.kind == 'set':
             dom = t.sort().domain()
             if name == 'add':
